@@ -485,6 +485,41 @@ def selftest(ctx, prop):
         ok = ok and good
         print('selftest model defect %-20s -> %s' % (defects[0], 'counterexample of %s in %d steps' % (inv, len(res['cex']))
                                                      if good else 'NOT DETECTED'))
+    if prop == 'C10':
+        # MasterLag.tla: each repaired watch-latency defect, switched on, is found
+        for defects, inv in [(('init_known_only',), 'InvSettled'), (('drop_no_withdraw',), 'InvNoDup'),
+                             (('integrity_first_seen', 'init_known_only'), 'InvNoAssert')]:
+            mod, cfg, files = lag_cfg(defects=defects, invariants=[inv])
+            res = tlc.mc(mc.SPEC_DIR, mod, cfg, extra_files=files, coverage=False, timeout=600)
+            good = res['violated'] == inv
+            ok = ok and good
+            print('selftest lag model defect %-40s -> %s' % (
+                '+'.join(defects), 'counterexample of %s in %d steps' % (inv, len(res['cex']))
+                if good else 'NOT DETECTED'))
+        # binding: a recorded lag trace with one corrupted observation is rejected
+        rng = random.Random(7)
+        scn = mc.SCENARIOS['lag']
+        traces = mc.record('lag', [[e for e in gen_stale(scn, rng) if e[0] != 'SetPartition']
+                                   for _ in range(12)])
+        clean, _ = mc.validate_lag(traces)
+        import copy
+        bad = copy.deepcopy(traces)
+        hit = 0
+        for t in bad:
+            for l in t['lines'][1:]:
+                if l['ev'] in ('StaleCycle', 'Cycle') and 'exc' not in l and l['obs']['alive'] \
+                        and any(l['obs']['pl'].values()):
+                    srv = next(s for s, v in l['obs']['pl'].items() if v)
+                    l['obs']['pl'][srv] = []          # a placement entry the master never withdrew
+                    hit += 1
+                    break
+        dirty, _ = mc.validate_lag(bad)
+        n_clean = sum(1 for v in clean if v['fail'])
+        n_bad = len({v['tid'] for v in dirty if 'ext.lag.step' in v['fail']})
+        good = n_clean == 0 and hit > 0 and n_bad == hit
+        ok = ok and good
+        print('selftest lag binding: %d clean traces -> %d rejected steps; %d traces with one corrupted '
+              'observation -> %d rejected (%s)' % (len(traces), n_clean, hit, n_bad, 'ok' if good else 'FAILED'))
     for d in sorted(glob.glob(os.path.join(core.VERIF, 'seeded', prop + '-*'))):
         if not os.path.exists(os.path.join(d, 'patch.diff')):
             continue
